@@ -28,13 +28,16 @@ def jobs(tier):
         J.append(Job("c10", "mpmc", "2,0,0,0", {"api": api}))
     J.append(Job("c10", "legacy", "2,0,0,0"))
     J.append(Job("c10", "legacy", "1,1,0,0"))
+    for api in (0, 1, 2, 3):     # deeper TSO budgets for the paths that end in a plain store
+        J.append(Job("c10", "mpsc", "2,1,0,0", {"api": api}, workers=8))
+        J.append(Job("c10", "splice", "2,1,0,0", {"api": api, "pre": 3}, workers=8))
     if not q:
         for api in (0, 1, 2, 3):
             J.append(Job("c10", "mpsc", "3,0,0,0", {"api": api}, workers=8))
             J.append(Job("c10", "splice", "3,0,0,0", {"api": api, "pre": 1, "enq2": 1}, workers=8))
-            J.append(Job("c10", "splice", "2,1,0,0", {"api": api, "pre": 3}, workers=8))
+            J.append(Job("c10", "splice", "3,1,0,0", {"api": api, "pre": 3}, workers=8))
             J.append(Job("c10", "iter", "3,0,0,0", {"api": api}, workers=8))
-            J.append(Job("c10", "mpsc", "2,1,0,0", {"api": api}, workers=8))
+            J.append(Job("c10", "mpsc", "3,1,0,0", {"api": api}, workers=8))
         J.append(Job("c10", "mpmc", "3,0,0,0", {"api": 3}, workers=8))
         J.append(Job("c10", "legacy", "3,0,0,0", workers=8))
         J.append(Job("c10", "legacy", "2,1,0,0", workers=8))
